@@ -56,6 +56,8 @@ type mkAct struct {
 	Base  interface{}     `json:"base"`
 	Np    []string        `json:"np"`
 	Rfc   string          `json:"rfcroot"`
+	Vlen  int             `json:"vlen"`
+	Vlens []int           `json:"vlens"`
 }
 
 type mkStep struct {
@@ -502,7 +504,8 @@ func mkReplayA(out *vhOut, dir string, pi int, init *mkState, steps []mkStep, co
 
 // ---------------------------------------------------------------- Part B
 
-func mkValueB(v int, np [][32]byte) []byte {
+// value v with exactly vlen bytes (the specification fixes the lengths: VLen)
+func mkValueB(v int, np [][32]byte, vlen int) []byte {
 	if v >= 1000 {
 		// the bytes of an inner node's preimage offered as a value
 		b := []byte{1}
@@ -510,12 +513,33 @@ func mkValueB(v int, np [][32]byte) []byte {
 		b = append(b, np[1][:]...)
 		return b
 	}
-	return []byte(fmt.Sprintf("cross-chain-state-value-%d", v))
+	b := []byte(fmt.Sprintf("cross-chain-value-%04d:", v))
+	for i := len(b); i < vlen; i++ {
+		b = append(b, byte(i*7+v))
+	}
+	return b[:vlen]
 }
 
+var mkVlens = map[int]int{} // member index -> value length, as announced by the specification
+
 func mkLeafB(i int) [32]byte {
-	v := mkValueB(i, nil)
+	vlen, ok := mkVlens[i]
+	if !ok {
+		vlen = 24
+	}
+	v := mkValueB(i, nil, vlen)
 	return sha256.Sum256(append([]byte{0}, v...))
+}
+
+func mkVarUint(n int) []byte {
+	switch {
+	case n < 0xFD:
+		return []byte{byte(n)}
+	case n <= 0xFFFF:
+		return []byte{0xFD, byte(n), byte(n >> 8)}
+	default:
+		return []byte{0xFE, byte(n), byte(n >> 8), byte(n >> 16), byte(n >> 24)}
+	}
 }
 
 func mkReplayB(out *vhOut, pi int, steps []mkStep, counts map[string]int) int {
@@ -527,13 +551,16 @@ func mkReplayB(out *vhOut, pi int, steps []mkStep, counts map[string]int) int {
 	list := func() []common.Uint256 {
 		hs := make([]common.Uint256, k)
 		for i := range hs {
-			hs[i] = HashLeaf(mkValueB(i, nil))
+			hs[i] = HashLeaf(mkValueB(i, nil, mkVlens[i]))
 		}
 		return hs
 	}
 	for si, st := range steps {
 		a := st.Act
 		counts[a.Name]++
+		for j, l := range a.Vlens {
+			mkVlens[j] = l
+		}
 		switch a.Name {
 		case "Grow":
 			k++
@@ -553,7 +580,7 @@ func mkReplayB(out *vhOut, pi int, steps []mkStep, counts map[string]int) int {
 			}
 		case "GenPath":
 			hs := list()
-			val := mkValueB(a.Val, nil)
+			val := mkValueB(a.Val, nil, a.Vlen)
 			var path []byte
 			var perr error
 			if p := mkCatch(func() { path, perr = MerkleLeafPath(val, hs) }); p != "" {
@@ -577,7 +604,7 @@ func mkReplayB(out *vhOut, pi int, steps []mkStep, counts map[string]int) int {
 			for _, n := range a.Np {
 				np = append(np, ev.eval(n))
 			}
-			val := mkValueB(a.Val, np)
+			val := mkValueB(a.Val, np, a.Vlen)
 			path := mkPathBytes(val, a.Venc, a.Elems, a.Trail, ev)
 			var got []byte
 			var perr error
@@ -603,16 +630,21 @@ func mkPathBytes(val []byte, venc string, elems [][]interface{}, trail int, ev *
 	var b []byte
 	switch venc {
 	case "ok":
-		if len(val) >= 0xFD {
-			panic("value too long for the harness")
-		}
-		b = append(b, byte(len(val)))
+		b = append(b, mkVarUint(len(val))...)
 		b = append(b, val...)
-	case "irr": // non-canonical length prefix
-		b = append(b, 0xFD, byte(len(val)), 0)
+	case "irr": // non-canonical length prefix: one form longer than needed
+		n := len(val)
+		switch {
+		case n < 0xFD:
+			b = append(b, 0xFD, byte(n), 0)
+		case n <= 0xFFFF:
+			b = append(b, 0xFE, byte(n), byte(n>>8), 0, 0)
+		default:
+			b = append(b, 0xFF, byte(n), byte(n>>8), byte(n>>16), byte(n>>24), 0, 0, 0, 0)
+		}
 		b = append(b, val...)
 	case "trunc": // the announced length exceeds what is there; nothing follows
-		b = append(b, byte(len(val)))
+		b = append(b, mkVarUint(len(val))...)
 		b = append(b, val[:len(val)-1]...)
 		return b
 	}
